@@ -320,7 +320,7 @@ reg(
     LEVEL_TEXT="Model-based runtime monitoring of the real LRU container (exhaustive short sequential histories vs a sequential model with dispose log) plus controlled-scheduler exploration of concurrent container and PoolManager histories with a linearizability checker, exactly-once disposal / conservation monitors, a 'dispose never under the lock' hook, the num_pools bound, the same-key-same-pool rule, in-flight responses across evictions and a socket sweep after references are dropped.",
     LEVEL_NOTE="Trusts the 50-line LRU model, the brute-force linearizability search (histories <= 9 operations, node budget => inconclusive) and the scheduler.",
     TECHNIQUE="reference-model comparison (sequential, exhaustive) + linearizability checking of scheduler-controlled concurrent histories + disposal/bound/leak monitors",
-    REQUIRED_MONITORS={"quick": {"sequential_history": 100000, "container_schedule": 500, "linearizability": 500, "manager_schedule": 200, "same_key_same_pool": 200, "inflight_and_sweep": 200, "queue_shape_sweep": 200}, "thorough": {"sequential_history": 10**6, "container_schedule": 10000, "manager_schedule": 5000, "queue_shape_sweep": 200}},
+    REQUIRED_MONITORS={"quick": {"sequential_history": 100000, "container_schedule": 500, "linearizability": 500, "manager_schedule": 200, "same_key_same_pool": 200, "inflight_and_sweep": 200, "queue_shape_sweep": 100}, "thorough": {"sequential_history": 10**6, "container_schedule": 10000, "manager_schedule": 5000, "queue_shape_sweep": 100}},
 )
 
 reg(
